@@ -4,10 +4,14 @@ package rpc
 
 import (
 	"bytes"
+	"net"
 	"strconv"
 	"strings"
 	"sync"
 	"testing"
+	"time"
+
+	"golang.org/x/net/context"
 
 	"github.com/keybase/go-codec/codec"
 )
@@ -26,6 +30,8 @@ func TestVerifC06(t *testing.T) {
 				evs := vInflateEvents(vRunScenario(c))
 				out.printf("scn %s ev=%s", c.id, strings.Join(evs, ";"))
 			})
+		case "e2e":
+			vGuard(out, c.kind, c.id, func() { out.printf("e2e %s %s", c.id, vRunE2E(c)) })
 		case "comp":
 			vGuard(out, c.kind, c.id, func() {
 				ct, _ := strconv.Atoi(c.get("ctype"))
@@ -153,4 +159,116 @@ func TestVerifC06(t *testing.T) {
 		}
 		out.flush()
 	}
+}
+
+// ---------------------------------------------------------------- both ends are the package: Call versus CallCompressed
+
+type vE2EErr struct{ s string }
+
+func (e vE2EErr) Error() string { return e.s }
+
+// a buffered duplex link (net.Pipe is unbuffered: a reply written while the peer is itself writing would deadlock)
+func vTCPPair() (net.Conn, net.Conn, error) {
+	ln, err := net.Listen("tcp", "127.0.0.1:0")
+	if err != nil {
+		return nil, nil, err
+	}
+	defer ln.Close()
+	acc := make(chan net.Conn, 1)
+	go func() { c, _ := ln.Accept(); acc <- c }()
+	a, err := net.Dial("tcp", ln.Addr().String())
+	if err != nil {
+		return nil, nil, err
+	}
+	b := <-acc
+	if b == nil {
+		a.Close()
+		return nil, nil, errVRetriableDial
+	}
+	return a, b, nil
+}
+
+func vRunE2E(c vCase) string {
+	a, b, err := vTCPPair()
+	if err != nil {
+		return "setup=" + strings.ReplaceAll(err.Error(), " ", "_")
+	}
+	lf := NewSimpleLogFactory(vQuietOutput{}, vQuietOpts{})
+	cx := NewTransport(a, lf, nil, nil, 1<<20)
+	sx := NewTransport(b, lf, nil, nil, 1<<20)
+	defer cx.Close()
+	defer sx.Close()
+	var hmu sync.Mutex
+	var hargs []string
+	resV, errS := c.get("res"), c.get("err")
+	srv := NewServer(sx, func(e error) interface{} {
+		if e == nil {
+			return nil
+		}
+		return e.Error()
+	})
+	_ = srv.Register(Protocol{Name: "p", Methods: map[string]ServeHandlerDescription{
+		"m": {
+			MakeArg: func() interface{} { var v interface{}; return &v },
+			Handler: func(ctx context.Context, arg interface{}) (interface{}, error) {
+				hmu.Lock()
+				hargs = append(hargs, vPrint(*(arg.(*interface{}))))
+				hmu.Unlock()
+				var r interface{}
+				if resV != "-" && resV != "" {
+					r = vParse(resV)
+				}
+				if errS != "-" && errS != "" {
+					return r, vE2EErr{errS}
+				}
+				return r, nil
+			},
+		}}})
+	srv.Run()
+	cli := NewClient(cx, vStringUnwrapper{}, nil)
+	method := "p.m"
+	if c.get("method") == "missing" {
+		method = "p.nothere"
+	} else if c.get("method") == "noproto" {
+		method = "q.m"
+	}
+	ct, _ := strconv.Atoi(c.get("ctype"))
+	var arg interface{}
+	if av := c.get("arg"); av != "-" && av != "" {
+		arg = vParse(av)
+	}
+	one := func(compressed bool) string {
+		var res interface{}
+		var e error
+		ctx, cancel := context.WithTimeout(context.Background(), 3*time.Second)
+		defer cancel()
+		if compressed {
+			e = cli.CallCompressed(ctx, method, arg, &res, CompressionType(ct), 0)
+		} else {
+			e = cli.Call(ctx, method, arg, &res, 0)
+		}
+		es := "-"
+		if e != nil {
+			es = vHexS(e.Error())
+		}
+		return es + "~" + vPrint(res)
+	}
+	plain := one(false)
+	comp := one(true)
+	follow := one(false)
+	hmu.Lock()
+	ha := strings.Join(hargs, "~")
+	hmu.Unlock()
+	return "plain=" + plain + " comp=" + comp + " followup=" + follow + " hargs=" + ha
+}
+
+// errors travel as strings
+type vStringUnwrapper struct{}
+
+func (vStringUnwrapper) MakeArg() interface{} { var s string; return &s }
+func (vStringUnwrapper) UnwrapError(arg interface{}) (appError error, dispatchError error) {
+	if sp, ok := arg.(*string); ok && sp != nil && *sp != "" {
+		return vE2EErr{*sp}, nil
+	}
+	return nil, nil
 }
